@@ -48,6 +48,9 @@ type common struct {
 	tier  string
 	extra string
 	scenout string
+	worker  bool
+	journal string
+	workers int
 
 	soMu sync.Mutex
 	so   *bufio.Writer
@@ -102,5 +105,8 @@ func parseCommon(name string, args []string) (*common, *flag.FlagSet) {
 	fs.StringVar(&c.tier, "tier", "quick", "tier")
 	fs.StringVar(&c.extra, "extra", "", "family specific")
 	fs.StringVar(&c.scenout, "scenout", "", "file receiving every executed scenario with its trace id")
+	fs.BoolVar(&c.worker, "worker", false, "run as a worker subprocess")
+	fs.StringVar(&c.journal, "journal", "", "worker journal file")
+	fs.IntVar(&c.workers, "workers", 0, "number of worker subprocesses (default: CPUs)")
 	return c, fs
 }
